@@ -9,6 +9,7 @@ PROP = dict(
     theorems=[
         "MM.C25.C25_start_implies",
         "MM.C25.C25_runs_validated",
+        "MM.C25.C25_exec_surface",
         "MM.C25.C25_reject_keeps_counter",
         "MM.C25.C25_empty_whitelist",
         "MM.C25.C25_class_exact",
@@ -24,7 +25,7 @@ PROP = dict(
          "(arguments padded with blanks, CR/LF, tabs, NUL, NBSP, quotes around absolute paths and metacharacters) and compare it with the "
          "validated vector; plus concurrent acquire/release stress on a real Executor; non-trivial = request got past "
          "the enabled and password checks (whitelist / argument filter / counter actually consulted)",
-    nontrivial=lambda op, out: op.startswith("stress") or (op.split(" ")[0] in ("admit", "session", "pty", "argv", "argvp") and not out.startswith(("err disabled", "err authreq", "err badcreds"))),
+    nontrivial=lambda op, out: op.startswith("stress") or (op.split(" ")[0] in ("admit", "session", "pty", "argv", "argvp", "exec", "execp") and not out.startswith(("err disabled", "err authreq", "err badcreds"))),
     trusted_base=[
         "bcrypt is an abstract predicate pwOK(hash, password) in the theorems; T-diff instantiates it with real bcrypt hashes on the Go side and equality on the model side",
         "regexp.MatchString on a single ASCII character class = 'some byte of the string is in the class' (facts stage refuses any other pattern shape)",
@@ -33,6 +34,8 @@ PROP = dict(
         "process start happens only after validateAndAcquire returned nil (NewSession / NewPTYSession first statement; read, exercised by session/pty ops)",
     ],
     assumptions=[
+        "NOT covered by the property statement and therefore only recorded (C25_exec_surface, exec/execp ops): the request's work_dir and env pairs reach exec.Cmd.Dir / "
+        "exec.Cmd.Env unvalidated (after the agent's own environment, so LD_PRELOAD / BASH_ENV / PATH of the request win); TTY.Term likewise",
         "a release step is taken only by a session that holds a slot (handler.go releaseSession guarded by ss.Released; error paths release once before publishing the session)",
         "the counter does not overflow a Go int",
     ],
